@@ -611,10 +611,11 @@ type c12PeerSpec struct {
 	// for a real server: which shared memory the harness creates beforehand (as a client would)
 	createFile  bool
 	createMemfd bool
-	removeB     bool // remove the buffer file again before the server runs (it must fail to map)
-	wantVer     int  // > 0: the property demands success with this (lower common) version
-	late        bool // the script is sent only after the real end's InitializeTimeout has passed
-	expect      int  // number of frames the protocol makes the real end write in this scenario
+	removeB     bool   // remove the buffer file again before the server runs (it must fail to map)
+	wantVer     int    // > 0: the property demands success with this (lower common) version
+	late        bool   // the script is sent only after the real end's InitializeTimeout has passed
+	expect      int    // number of frames the protocol makes the real end write in this scenario
+	sig         string // signature reported when wantVer is not met (default: version-not-the-lower-common-one)
 }
 
 // scenarios that end by the real end's init timer get a short timeout, all others a generous one
@@ -702,7 +703,21 @@ func c12PeerSpecs() []c12PeerSpec {
 		{name: "s-v2-short-body", script: S(c12Send{data: append(c12Hdr(headerSize+1, 2, typeShareMemoryByFilePath), 7)})},
 		{name: "s-v2-length-below-header", script: S(c12Send{data: c12Hdr(4, 2, typeShareMemoryByFilePath)})},
 		{name: "s-v3-memfd-short-body", expect: 1, script: S(exch(3), c12Send{data: append(c12Hdr(headerSize+3, 3, typeShareMemoryByMemfd), 0, 9, 65)})},
-		{name: "s-version-4", script: S(exch(4))},
+		// peers of a NEWER generation (they advertise 4, 5, 255 and otherwise follow the exchange): the lower
+		// common version is 3 and the handshake must complete
+		{name: "s-newer-client-v4-stalls-after-version", expect: 1, script: S(exch(4))},
+		{name: "s-newer-client-v4", expect: 3, wantVer: 3, sig: "C12:server-rejects-newer-client-instead-of-lower-common-version", createMemfd: true, script: func(q, b string, bf, qf int) []c12Send {
+			return []c12Send{exch(4), {data: c12Meta(3, typeShareMemoryByMemfd, q, b)}, {fds: []int{bf, qf}}}
+		}},
+		{name: "c-newer-server-v4", expect: 3, wantVer: 3, sig: "C12:client-rejects-newer-server-instead-of-lower-common-version", client: true, mt: MemMapTypeMemFd, script: S(exch(4), h(3, typeAckReadyRecvFD), h(3, typeAckShareMemory))},
+		{name: "s-newer-client-v5", expect: 3, wantVer: 3, sig: "C12:server-rejects-newer-client-instead-of-lower-common-version", createMemfd: true, script: func(q, b string, bf, qf int) []c12Send {
+			return []c12Send{exch(5), {data: c12Meta(3, typeShareMemoryByMemfd, q, b)}, {fds: []int{bf, qf}}}
+		}},
+		{name: "c-newer-server-v5", expect: 3, wantVer: 3, sig: "C12:client-rejects-newer-server-instead-of-lower-common-version", client: true, mt: MemMapTypeMemFd, script: S(exch(5), h(3, typeAckReadyRecvFD), h(3, typeAckShareMemory))},
+		{name: "s-newer-client-v255", expect: 3, wantVer: 3, sig: "C12:server-rejects-newer-client-instead-of-lower-common-version", createMemfd: true, script: func(q, b string, bf, qf int) []c12Send {
+			return []c12Send{exch(255), {data: c12Meta(3, typeShareMemoryByMemfd, q, b)}, {fds: []int{bf, qf}}}
+		}},
+		{name: "c-newer-server-v255", expect: 3, wantVer: 3, sig: "C12:client-rejects-newer-server-instead-of-lower-common-version", client: true, mt: MemMapTypeMemFd, script: S(exch(255), h(3, typeAckReadyRecvFD), h(3, typeAckShareMemory))},
 		{name: "s-v2-with-exchange-type", script: S(exch(2))},
 		{name: "s-v3-with-file-type-first", script: S(h(3, typeShareMemoryByFilePath))},
 		{name: "s-unexpected-after-version", expect: 1, script: S(exch(3), h(3, typeAckShareMemory))},
@@ -861,7 +876,11 @@ func c12RunPeer(id int, sp c12PeerSpec) c12Case {
 	}
 	// oracle: where the peer's script is a complete, valid exchange the end must succeed with the lower common version
 	if sp.wantVer > 0 && (err != nil || c.ObsVer != sp.wantVer) {
-		c.Oracle = append(c.Oracle, "C12:version-not-the-lower-common-one")
+		sig := "C12:version-not-the-lower-common-one"
+		if sp.sig != "" {
+			sig = sp.sig
+		}
+		c.Oracle = append(c.Oracle, sig)
 	}
 	// oracle: an error comes no later than the timeout (generous slack)
 	if err != nil && el > sp.timeout()+c12Slack {
@@ -1634,6 +1653,38 @@ func TestVerif_C12(t *testing.T) {
 	id := 0
 	out.emit(c12Case{ID: -1, Kind: "source", Name: "initProtocol-runs-the-initializer-selection-under-the-timer", Err: c12InitProtocolShape()})
 	c12CodecCases(r, n, &id, out)
+	// checkEventValid on every version byte (and a few bad magics / types): the model's header validity
+	// predicate is compared with the real function case by case
+	for v := 0; v < 256; v++ {
+		for _, alt := range []int{0, 1, 2} {
+			hd := c12Hdr(headerSize, uint8(v), typeExchangeProtoVersion)
+			switch alt {
+			case 1:
+				if v%16 != 3 {
+					continue
+				}
+				hd[5] ^= 0x40 // bad magic
+			case 2:
+				if v%16 != 5 {
+					continue
+				}
+				hd[7] = uint8(maxEventType) + 1 + uint8(v%7) // type out of range
+			}
+			obs := 0
+			switch checkEventValid(header(hd)) {
+			case nil:
+			case ErrInvalidVersion:
+				obs = 1
+			case ErrInvalidMsgType:
+				obs = 2
+			default:
+				obs = 3
+			}
+			out.emit(c12Case{ID: id, Kind: "valid", Name: "checkEventValid", Ver: v, Ty: int(hd[7]), Class: obs,
+				ObsVer: int(header(hd).Magic())})
+			id++
+		}
+	}
 
 	var mu sync.Mutex
 	emit := func(c c12Case) {
